@@ -37,6 +37,13 @@ variable, macro and call-block parameter) x 10 positions of the statement (top
 level, if, for, macro, block, call block, with, filter block, set block,
 autoescape block).  Forms the parser rejects are dropped as syntax errors;
 whether a form executes is decided by rendering it with a namespace object.
+*Filters under configured policies*: every built-in filter x the first two
+positions and every parameter of its signature (inspect) x container arguments
+from the context (lists / dicts of ints and of strings, set, deque, nested
+list) x rotating inputs (containers, a text, lists and dicts of strings), in
+environments where every policy documented in docs/api.rst "Policies" has a
+non-default, type-correct value (two sets: sequence-valued policies as list and
+as tuple); the string-valued data also runs under the default policies.
 After each render every context value is compared with the deep copy taken
 before it; the comparison is type-exact at every level (1 != '1' != True).
 """
@@ -49,7 +56,8 @@ import inspect
 
 PID = "C19"
 LEVEL = "exploration"
-TECHNIQUE = ("before/after deep comparison of context containers + execution-derived mutator ground truth, "
+TECHNIQUE = ("before/after deep comparison of context containers (default and fully non-default "
+             "environment policies) + execution-derived mutator ground truth, "
              "enumerated method x argument x path table (on instances and through type objects), filter x "
              "argument table, and attribute targets in every name-binding statement form")
 RULE = ("method cases: (container type, target expression, name from dir(type), argument tuple "
@@ -77,7 +85,15 @@ RULE = ("method cases: (container type, target expression, name from dir(type), 
         "filter results, loop variables, macro and call-block parameters] x 10 positions of the statement "
         "x attribute names new/existing) for every form the parser accepts, the rejected forms once per "
         "reference (quick: top level plus a rotating third of the other positions, one attribute name "
-        "and one sync/autoescape combination per row); (method, filter and earlier set-statement cases "
+        "and one sync/autoescape combination per row); policy-table cases: (filter from env.filters x "
+        "[positional argument 1, positional argument 2, keyword argument named after each parameter of "
+        "the filter's signature] x container argument from the context [list/dict of ints, list/dict of "
+        "strings, set, deque, nested list] x one (thorough: four) rotating input(s) from [7 container "
+        "inputs, text, list/dict of strings] x policy set [two sets giving every policy documented in "
+        "docs/api.rst a non-default type-correct value; the default policies for the string-valued data] "
+        "x consumption form x sync/async x autoescape), every (filter, parameter, value) on every seed "
+        "(quick: one policy set, form and sync/autoescape combination per row, rotating); (method, "
+        "filter and earlier set-statement cases "
         "in quick: a seed-rotated "
         "quarter of the non-mutating argument tuples and one direct consumption form per row, "
         "via-map on inputs whose elements are containers; method cases alternate autoescape by "
@@ -98,6 +114,7 @@ ASSUMPTIONS = [
     "set statements with attribute targets: only the before/after comparison of the context data is judged (the documentation promises an exception for non-namespace targets; which one is not checked here); a namespace built from context data is a new object, so assigning its attributes must leave that data as it was",
     "type objects: a call counts as an attempted modification iff executing getattr(type object, name)(container, arguments) on a deep copy changes the copy; only names that are methods of the container's builtin type or of its ABC are generated - methods a class adds on its own (Counter.subtract, OrderedDict.move_to_end) are application-provided functions like any helper the application passes in, not methods of list/dict/set/deque; Y['name'] and map(attribute='name') on a type object may subscript the type instead of reaching the method, there only the data comparison is judged",
     "attribute targets: only the before/after comparison of the context data is judged, never which exception is raised; a statement form counts as exercised when it compiles (the namespace controls show how many forms run to completion)",
+    "policies: only the policies documented in docs/api.rst are configured (the counter policies_set_non_default reports how many of the documented names the two sets cover); values are type-correct per that documentation (json.dumps_function is a function with the signature of json.dumps); the policy objects themselves are not compared, only the context data",
     "environments of this check load the do and i18n extensions, a DictLoader with one macro library and a globals entry holding the four container types",
     "autoescape is an environment option (autoescape=True/False); per-template autoescape blocks are not generated",
 ]
@@ -124,7 +141,12 @@ FLOORS = {
                            "type_method_cases:env-global": 140,
                            "target_cases:container": 200, "target_block_set_cases": 160,
                            "target_namespace_controls_ok": 26, "target_forms_executing": 4,
-                           "type_defined_checks": 68}},
+                           "type_defined_checks": 68,
+                           "policy_table_cases": 580,
+                           "policy_table_cases:non-default-policies": 370,
+                           "policy_table_cases:default-policies": 210,
+                           "policy_table_keyword_container_cases": 220,
+                           "policies_set_non_default": 4}},
     "thorough": {"evaluations": 60000, "distinct": 60000,
                  "counters": {"method_cases": 30000, "mutating_attempts": 8000,
                               "security_errors": 6000, "filter_cases": 30000,
@@ -145,7 +167,12 @@ FLOORS = {
                               "type_method_cases:env-global": 5700,
                               "target_cases:container": 6000, "target_block_set_cases": 4800,
                               "target_namespace_controls_ok": 780, "target_forms_executing": 4,
-                              "type_defined_checks": 400}},
+                              "type_defined_checks": 400,
+                              "policy_table_cases": 15000,
+                              "policy_table_cases:non-default-policies": 11800,
+                              "policy_table_cases:default-policies": 3400,
+                              "policy_table_keyword_container_cases": 7000,
+                              "policies_set_non_default": 4}},
 }
 
 TYPES = {"list": list, "dict": dict, "set": set, "deque": collections.deque}
@@ -206,6 +233,12 @@ def make_data():
         # with their string forms leaves the rendered output unchanged)
         "mx": [1, 2.5, None, [1, 2], {"a": 1}, True, (3, [4])],
         "rows": [[1, 2.5], [None, [3]], collections.deque([4, 5])],
+        # text and string-valued containers: the values filters are documented for, so
+        # that a filter gets past the validation of its arguments
+        "text": "call tel:123 or see ftp://example.com/x and https://example.com <b>now</b>",
+        "words": ["see ftp://example.com/x", "b c", "<i>"],
+        "astrs": ["ftp:", "tel:"],
+        "sdict": {"k": "v", "a": "b"},
         # type objects as data (their methods take the container as first argument)
         **TYPE_DATA,
         "tys": {"list": list, "dict": dict, "set": set, "deque": collections.deque},
@@ -286,10 +319,49 @@ NONCALL_PATHS = {"format_field", "format_map_field"}
 _envs = {}
 
 
-def get_env(is_async, autoescape=False):
+def _dumps_plain(obj, **kwargs):
+    import json
+
+    return json.dumps(obj, **kwargs)
+
+
+#: non-default, type-correct values for every policy documented in docs/api.rst
+#: ("Policies"); two sets so that sequence-valued policies come as list and tuple
+POLICY_SETS = {
+    "default": {},
+    "custom-a": {"truncate.leeway": 0, "urlize.rel": "nofollow noopener", "urlize.target": "_blank",
+                 "urlize.extra_schemes": ["tel:", "sip:"], "json.dumps_function": _dumps_plain,
+                 "json.dumps_kwargs": {"sort_keys": False, "separators": (",", ":")},
+                 "ext.i18n.trimmed": True},
+    "custom-b": {"truncate.leeway": 11, "urlize.rel": "external", "urlize.target": "frame1",
+                 "urlize.extra_schemes": ("tel:",), "json.dumps_function": _dumps_plain,
+                 "json.dumps_kwargs": {"sort_keys": True, "indent": 1, "default": repr},
+                 "ext.i18n.trimmed": True},
+}
+
+
+def documented_policies():
+    """Policy names listed in the Policies section of docs/api.rst of the tree under test."""
+    import os
+    import re
+
+    from vt import core
+
+    try:
+        with open(os.path.join(core.REPO, "docs", "api.rst"), encoding="utf-8") as f:
+            text = f.read()
+    except OSError:
+        return []
+    m = re.search(r"^Policies\n-+\n(.*?)^\S[^\n]*\n[-=~^]{3,}\n", text, re.S | re.M)
+    sect = m.group(1) if m else ""
+    return sorted(set(re.findall(r"^``([a-z0-9_.]+)``:", sect, re.M)))
+
+
+def get_env(is_async, autoescape=False, policies="default"):
     from jinja2.sandbox import ImmutableSandboxedEnvironment
 
-    env = _envs.get((is_async, autoescape))
+    key = (is_async, autoescape) if policies == "default" else (is_async, autoescape, policies)
+    env = _envs.get(key)
     if env is None:
         from jinja2 import DictLoader
 
@@ -300,15 +372,17 @@ def get_env(is_async, autoescape=False):
         # type objects an application registered as globals
         env.globals["gtypes"] = {"list": list, "dict": dict, "set": set,
                                  "deque": collections.deque}
-        _envs[(is_async, autoescape)] = env
+        # application configuration: every documented policy set to a non-default value
+        env.policies.update(copy.deepcopy(POLICY_SETS[policies]))
+        _envs[key] = env
     return env
 
 
-def render(source, is_async, autoescape=False):
+def render(source, is_async, autoescape=False, policies="default"):
     """-> (data, snapshot, outcome, message); outcome in ok/security/syntax/other"""
     from jinja2.exceptions import SecurityError, TemplateSyntaxError
 
-    env = get_env(is_async, autoescape)
+    env = get_env(is_async, autoescape, policies)
     data = make_data()
     snap = make_data()      # == copy.deepcopy(data): checked once per shard in run()
     try:
@@ -685,6 +759,35 @@ def filter_table(quick=False):
     return [r for r in out if r[2].split("=")[-1].split(",")[-1].strip() != r[1]]
 
 
+# Policy table: every filter x every parameter of its signature (and the first
+# two positions) x container arguments from the context, run in environments
+# whose documented policies are all set to non-default values; the values and
+# inputs added here (strings, lists and dicts of strings) also run once under
+# the default policies.
+POLICY_ARGVALS = ["alist", "astrs", "adict", "sdict", "aset", "adq", "lol"]
+POLICY_NEW_VALUES = {"astrs", "sdict", "text", "words"}
+POLICY_INPUTS = QUICK_INPUTS + ["text", "words", "astrs", "sdict"]
+
+
+def policy_filter_table(quick, seed):
+    """-> [(filter, input, argtext, argkey, argument value)]; one (thorough: four)
+    rotating input(s) per (filter, parameter, value), so every such triple runs on
+    every seed."""
+    env = get_env(False)
+    out = []
+    for fi, name in enumerate(sorted(env.filters)):
+        args = [(v, "pos0", v) for v in POLICY_ARGVALS] + \
+               [(f"1, {v}", "pos1", v) for v in POLICY_ARGVALS[:4]] + \
+               [(f"{p}={v}", p, v) for p in filter_params(env, name) for v in POLICY_ARGVALS]
+        for ri, (argtext, argkey, val) in enumerate(args):
+            k = (fi + ri + seed) % len(POLICY_INPUTS)
+            inputs = [i for i in POLICY_INPUTS[k:] + POLICY_INPUTS[:k] if i != val]
+            inputs = inputs[:1 if quick else 4]
+            for inp in inputs:
+                out.append((name, inp, argtext, argkey, val))
+    return out
+
+
 def _where(inp, argtext, argkey, ch):
     """Which operand of the filter was modified: an argument container (named
     by its keyword / position) takes precedence over the input."""
@@ -700,12 +803,20 @@ def filter_case(ctx, case, count=True):
     name, inp, argtext, argkey, form, is_async = (case["filter"], case["input"], case["argtext"],
                                                   case["argkey"], case["form"], case["async"])
     autoescape = bool(case.get("autoescape", False))
+    policies = case.get("policies", "default")
     source = filter_source(name, inp, argtext, form)
-    data, snap, outcome, msg = render(source, is_async, autoescape)
+    data, snap, outcome, msg = render(source, is_async, autoescape, policies)
     if outcome == "syntax":
         if count:
             ctx.count("syntax_rejected")
         return
+    if count and case.get("table") == "policy":
+        ctx.count("policy_table_cases")
+        ctx.count("policy_table_cases:" + ("default-policies" if policies == "default"
+                                           else "non-default-policies"))
+        ctx.count("policy_table_outcome:" + outcome)
+        if policies != "default" and argkey not in ("pos0", "pos1", "none"):
+            ctx.count("policy_table_keyword_container_cases")
     if count:
         ctx.ev()
         ctx.count("filter_cases")
@@ -718,13 +829,16 @@ def filter_case(ctx, case, count=True):
             ctx.count("filter_cases_autoescape")
         if form in MAP_FORMS:
             ctx.count("via_map_cases")
-        ctx.dist(["f", name, inp, argtext, form, is_async, autoescape])
+        ctx.dist(["f", name, inp, argtext, form, is_async, autoescape] +
+                 ([policies] if policies != "default" else []))
     ch = changed_vars(data, snap)
     if ch:
         where = _where(inp, argtext, argkey, ch)
         key = f"filter:{name}/{where}/" + ("async" if is_async else "sync") + \
-              ("/autoescape" if autoescape else "")
-        ctx.violation(key, f"{source!r} (async={is_async}, autoescape={autoescape}) modified context value(s) {ch}: before "
+              ("/autoescape" if autoescape else "") + \
+              ("/non-default-policies" if policies != "default" else "")
+        ctx.violation(key, f"{source!r} (async={is_async}, autoescape={autoescape}, policies={policies}"
+                           f"{' ' + repr({k: v for k, v in POLICY_SETS[policies].items() if not callable(v)}) if policies != 'default' else ''}) modified context value(s) {ch}: before "
                            f"{[snap[k] for k in ch if k in snap]!r} after {[data.get(k) for k in ch]!r}; "
                            f"outcome {outcome}: {msg[:100]!r}", dict(case, source=source))
 
@@ -1193,6 +1307,34 @@ def run(ctx):
         if ctx.out_of_time() and quick and i > len(table) * 0.9:
             ctx.count("timeboxed_stop")
             break
+    # ---- filters x container arguments under non-default policies (and the string-valued data)
+    ptable = policy_filter_table(quick, ctx.seed)
+    custom = [p for p in POLICY_SETS if p != "default"]
+    if ctx.shard == 0:
+        documented = documented_policies()
+        ctx.count("policies_documented", len(documented))
+        ctx.count("policies_set_non_default",
+                  sum(1 for p in documented if all(p in POLICY_SETS[c] for c in custom)))
+        ctx.extra["policy_table_rows"] = len(ptable)
+    for i, (name, inp, argtext, argkey, val) in enumerate(ptable):
+        if not ctx.mine(i):
+            continue
+        r = i // ctx.nshards + ctx.seed
+        psets = [custom[r % len(custom)]] if quick else list(custom)
+        if val in POLICY_NEW_VALUES or inp in POLICY_NEW_VALUES:
+            psets.append("default")
+        for pset in psets:
+            for form in DIRECT_FORMS:
+                if form != DIRECT_FORMS[r % (2 if quick else 3)]:
+                    continue
+                for is_async in (False, True):
+                    for ae in (False, True):
+                        if quick and (2 * is_async + ae) != (r + (pset == "default")) % 4:
+                            continue
+                        filter_case(ctx, {"kind": "filter", "table": "policy", "filter": name,
+                                          "input": inp, "argtext": argtext, "argkey": argkey,
+                                          "form": form, "async": is_async, "autoescape": ae,
+                                          "policies": pset})
     # ---- thorough: random compositions
     if not quick:
         rng = ctx.rng("compose")
